@@ -339,13 +339,3 @@ pub open spec fn rules_state(rules: Seq<Rule>, n: nat, rs: RuleSet, facts: Value
     if n == 0 || n > rules.len() { st0 } else { sem(rules[n - 1].expr, rs, facts, rules_state(rules, (n - 1) as nat, rs, facts, st0)).1 }
 }
 
-// ---- C15: registry invariant: every function is stored under its own name ----------------------------------
-pub open spec fn fns_wf(fm: Map<&'static str, BoxedFunction>) -> bool {
-    forall|k: &'static str| #[trigger] fm.dom().contains(k) ==> fm[k].spec_name() == k
-}
-
-pub open spec fn reserved_spec(s: Seq<char>) -> bool { exists|j: int| 0 <= j < KEYWORDS@.len() && (#[trigger] KEYWORDS@[j])@ == s }
-
-// ---- C15: builder state ---------------------------------------------------------------------------------------
-pub open spec fn rule_name_taken(rules: Seq<Rule>, name: Seq<char>) -> bool { exists|j: int| 0 <= j < rules.len() && (#[trigger] rules[j]).name@ == name }
-pub open spec fn rules_distinct(rules: Seq<Rule>) -> bool { forall|i: int, j: int| 0 <= i < j < rules.len() ==> (#[trigger] rules[i]).name@ != (#[trigger] rules[j]).name@ }
